@@ -42,6 +42,8 @@ FIELDS = {
                       "self.out_degree": ("self_out_degree", "dictZ"), "self.is_full": ("self_is_full", "bool"), "self.is_full_checked": ("self_is_full_checked", "bool"),
                       "self.graph.vertices": ("self_graph_vertices", "set"), "self.graph.vertex_total_valence": ("self_graph_vertex_total_valence", "dictZ")},
 }
+FIELDS["CFLaplacian"] = {"self.graph.vertices": ("self_graph_vertices", "set"), "self.graph.graph": ("self_graph_graph", "dictD"),
+                         "self.graph.vertex_total_valence": ("self_graph_vertex_total_valence", "dictZ"), "self.laplacian": ("self_laplacian", "dictD")}
 FIELDS["CFConfigMoves"] = {"self.q_vertex": ("self_q_vertex", "key"), "self.v_tilde_vertices": ("self_v_tilde_vertices", "set"),
                            "self.divisor.degrees": ("self_divisor_degrees", "dictZ"), "self.divisor.graph.graph": ("self_divisor_graph_graph", "dictD"),
                            "self.graph.vertices": ("self_graph_vertices", "set"), "self.graph.graph": ("self_graph_graph", "dictD")}
@@ -63,6 +65,7 @@ TARGETS = [
     ("chipfiring/CFOrientation.py", "CFOrientation", "get_in_degree"), ("chipfiring/CFOrientation.py", "CFOrientation", "get_out_degree"),
     ("chipfiring/CFOrientation.py", "CFOrientation", "get_orientation"), ("chipfiring/CFOrientation.py", "CFOrientation", "is_source"), ("chipfiring/CFOrientation.py", "CFOrientation", "is_sink"),
     ("chipfiring/CFOrientation.py", "CFOrientation", "divisor"), ("chipfiring/CFOrientation.py", "CFOrientation", "canonical_divisor"),
+    ("chipfiring/CFLaplacian.py", "CFLaplacian", "_construct_matrix"), ("chipfiring/CFLaplacian.py", "CFLaplacian", "get_matrix_entry"),
     ("chipfiring/CFConfig.py", "CFConfigMoves", "__init__"), ("chipfiring/CFConfig.py", "CFConfigMoves", "get_degree_at"), ("chipfiring/CFConfig.py", "CFConfigMoves", "is_non_negative"), ("chipfiring/CFConfig.py", "CFConfigMoves", "get_degree_sum"), ("chipfiring/CFConfig.py", "CFConfigMoves", "get_q_underlying_degree"),
     ("chipfiring/CFConfig.py", "CFConfigMoves", "_is_comparable_to"), ("chipfiring/CFConfig.py", "CFConfigMoves", "__eq__"), ("chipfiring/CFConfig.py", "CFConfigMoves", "__ge__"), ("chipfiring/CFConfig.py", "CFConfigMoves", "__le__"),
     ("chipfiring/CFConfig.py", "CFConfigMoves", "set_fire"), ("chipfiring/CFConfig.py", "CFConfigMoves", "lending_move"), ("chipfiring/CFConfig.py", "CFConfigMoves", "borrowing_move"),
@@ -354,6 +357,8 @@ class Fn:
                 t = n.targets[0] if isinstance(n, ast.Assign) else n.target
                 while isinstance(t, ast.Subscript): t = t.value
                 if isinstance(t, ast.Attribute): tgt = FIELDS[self.cls].get(ast.unparse(t), (None,))[0]
+                t0_ = n.targets[0] if isinstance(n, ast.Assign) else n.target
+                if isinstance(t, ast.Name) and isinstance(t0_, ast.Subscript) and self.env.get(t.id) in ("dictD", "dictZ"): tgt = t.id      # a store into a local dictionary
             if isinstance(n, ast.AugAssign) and isinstance(n.target, ast.Name): tgt = n.target.id
             if isinstance(n, ast.Call) and isinstance(n.func, ast.Attribute) and n.func.attr in ("add", "append") and isinstance(n.func.value, ast.Name) and n.func.value.id not in self.bookkeeping: tgt = n.func.value.id
             if isinstance(n, ast.Call) and isinstance(n.func, ast.Attribute) and ast.unparse(n.func.value) == "self":
@@ -396,6 +401,11 @@ class Fn:
                 and isinstance(s.body[0].value, ast.Call) and ast.unparse(s.body[0].value.func) == "warnings.warn": return K()
         if isinstance(s, ast.Expr) and isinstance(s.value, ast.Call) and isinstance(s.value.func, ast.Attribute) and s.value.func.attr == "add" and isinstance(s.value.func.value, ast.Name) \
                 and s.value.func.value.id in self.bookkeeping and len(s.value.args) == 1 and isinstance(s.value.args[0], ast.Name) and s.value.args[0].id in self.bookkeeping: return K()
+        if isinstance(s, ast.AnnAssign) and s.simple == 1 and isinstance(s.target, ast.Name) and isinstance(s.value, ast.Dict) and not s.value.keys \
+                and ast.unparse(s.annotation) in ("typing.Dict[Vertex, typing.Dict[Vertex, int]]", "Dict[Vertex, Dict[Vertex, int]]"):
+            if s.target.id in self.env: bad(s, "re-binding " + s.target.id)
+            self.env[s.target.id] = "dictD"; body = K()
+            return "let %s := (@nil (nat * dictZ)) in\n  %s" % (s.target.id, body)
         if isinstance(s, ast.AnnAssign) and s.value is not None and s.simple == 0:
             s = ast.copy_location(ast.Assign(targets=[s.target], value=s.value), s); u = ast.unparse(s)
         if isinstance(s, ast.Assign) and u == "self.graph = graph" and self.node.name == "__init__" and self.env.get("graph") == "graphobj": self.graph_alias = "graph"; return K()
@@ -580,7 +590,7 @@ class Fn:
                     if v in [f[0] for f in FIELDS[self.cls].values()]:
                         if v not in self.writes: self.writes.append(v)
                         if v not in self.reads: self.reads.append(v)
-                    elif self.env.get(v) not in ("set", "Z", "pairs"): bad(s, "loop-carried local " + v)
+                    elif self.env.get(v) not in ("set", "Z", "pairs", "dictD", "dictZ"): bad(s, "loop-carried local " + v)
                 lst, bind, vs, binder = self.iter_of(s.iter, s.target)
                 pre = self.pending; self.pending = []; env0 = dict(self.env)
                 for x in vs:
@@ -598,7 +608,7 @@ class Fn:
                 if v in [f[0] for f in FIELDS[self.cls].values()]:
                     if v not in self.writes: self.writes.append(v)
                     if v not in self.reads: self.reads.append(v)
-                elif self.env.get(v) not in ("set", "Z", "pairs"): bad(s, "loop-carried local " + v)
+                elif self.env.get(v) not in ("set", "Z", "pairs", "dictD", "dictZ"): bad(s, "loop-carried local " + v)
             lst, bind, vs, binder = self.iter_of(s.iter, s.target)
             pre = self.pending; self.pending = []
             env0 = dict(self.env)
@@ -611,7 +621,20 @@ class Fn:
                              % (binder, st, bind, inner, lst, st, st, body))
         bad(s, "statement " + ast.unparse(s)[:50])
     def store(self, s, tg, op, value, K):
-        """self.f[k] (op)= e   and   self.f[a][b] (op)= e"""
+        """self.f[k] (op)= e   and   self.f[a][b] (op)= e; the same on a LOCAL dictionary of dictionaries: d[k] = defaultdict(int) / {} and d[a][b] = e"""
+        if isinstance(tg.value, ast.Name) and self.env.get(tg.value.id) == "dictD" and op is None and \
+                ((isinstance(value, ast.Dict) and not value.keys) or ast.unparse(value) == "defaultdict(int)"):
+            # a fresh row; a defaultdict(int) row reads absent entries as 0, which is how every translated reader treats rows (d.get(k, 0))
+            d = tg.value.id; kx, tk = self.expr(tg.slice)
+            if tk != "key": bad(s)
+            pre = self.pending; self.pending = []; body = K(); self.pending = pre
+            return self.wrap("let %s := d_set %s [] %s in\n  %s" % (d, kx, d, body))
+        if isinstance(tg.value, ast.Subscript) and isinstance(tg.value.value, ast.Name) and self.env.get(tg.value.value.id) == "dictD" and op is None:
+            d = tg.value.value.id; v, tv = self.expr(value); a, ta = self.expr(tg.value.slice); b, tb = self.expr(tg.slice)
+            if tv != "Z" or ta != "key" or tb != "key": bad(s, "nested store into a local dictionary")
+            row = self.lookup(d, a)
+            pre = self.pending; self.pending = []; body = K(); self.pending = pre
+            return self.wrap("let %s := d_set %s (d_set %s %s %s) %s in\n  %s" % (d, a, b, v, row, d, body))
         if isinstance(value, ast.Dict) and not value.keys and op is None and isinstance(tg.value, ast.Attribute) and (self.field(tg.value) or (None, None))[1] == "dictD":
             f = self.field(tg.value, write=True); kx, tk = self.expr(tg.slice)
             if tk != "key": bad(s)
@@ -723,11 +746,11 @@ def read_enums():
 def main():
     failed = []
     read_enums()
-    for cls in ("CFDivisor", "CFGraph", "CFiringScript", "CFConfig", "CFOrientation", "CFConfigMoves"):
+    for cls in ("CFDivisor", "CFGraph", "CFiringScript", "CFConfig", "CFOrientation", "CFConfigMoves", "CFLaplacian"):
         out_path = os.path.join(os.path.dirname(OUT), "TranslatedImp%s.v" % cls)
         try:
             out = ["(* GENERATED on every run by tools/translate_imp.py from the current source in %s. Do not edit. *)" % REPO,
-                   "From Coq Require Import ZArith List Bool Arith.", "Import ListNotations.", "From CF Require Import PyDict%s." % (" TranslatedImpCFDivisor" if cls == "CFConfigMoves" else (" TranslatedImpCFDivisor TranslatedImpCFGraph" if cls == "CFOrientation" else "")), "Open Scope Z_scope.", ""]
+                   "From Coq Require Import ZArith List Bool Arith.", "Import ListNotations.", "From CF Require Import PyDict%s." % (" TranslatedImpCFDivisor" if cls == "CFConfigMoves" else (" TranslatedImpCFDivisor TranslatedImpCFGraph" if cls == "CFOrientation" else (" TranslatedImpCFGraph" if cls == "CFLaplacian" else ""))), "Open Scope Z_scope.", ""]
             k = 0
             for path, c, name in TARGETS:
                 if c != cls: continue
